@@ -8,7 +8,7 @@ import vlib, gen_lex
 from vlib import Infra, Verdict, log
 from props import lexer as L
 
-EXTRA_PATTERNS = ['"', "\\\\", "\\\"a\\\"", "[\\\"']", "é+", "a\\.b", "\\x{1F600}", "<[^>]*>", "\\\\n", "`", "[\\]\\[]", " ", "(?i)É", "\\$\\^", "a&b", "\\u00e9"[1:]]
+EXTRA_PATTERNS = ['"', "\\\\", "\\\"a\\\"", "[\\\"']", "é+", "a\\.b", "\\x{1F600}", "<[^>]*>", "\\\\n", "`", "[\\]\\[]", " ", "(?i)É", "\\$\\^", "a&b", "\\u00e9"[1:], "\U0001F600+", "[\U0001F600-\U0001F64F]a"]
 
 
 def metachar_cases():
@@ -36,7 +36,7 @@ def run(pid, tier, args):
             if r.get("kind") == "lexrun":
                 return L.do_replay(vhbin, wd, args.replay, v, pid)
             raise Infra("replay of kind %s: re-run the check" % r.get("kind"))
-        alpha = list("abclsne")
+        alpha = list("abclsneJ")   # J: a character beyond the Basic Multilingual Plane (U+1F600)
         cases = gen_lex.family(vlib.seed(), 25 if tier == "quick" else 200) + metachar_cases()
         rawpath = os.path.join(wd, "raw.json")
         gen_lex.write(rawpath, alpha, cases)
